@@ -99,6 +99,10 @@ pub(crate) struct Model {
     /// set if the block contained an action the model does not cover (comparison is then relaxed
     /// for the affected category only)
     pub(crate) unmodelled: BTreeSet<&'static str>,
+    /// per block: (tx id, action index, packet sequence, predicted success) of received packets
+    pub(crate) recv_predictions: Vec<([u8; 32], u64, u64, bool)>,
+    /// ibc-prefixed id -> trace-prefixed denomination known to the chain
+    pub(crate) known_traces: BTreeMap<AssetId, String>,
 }
 
 pub(crate) struct TxView<'a> {
@@ -136,6 +140,7 @@ impl Model {
         self.block_burned.clear();
         self.block_validator_updates.clear();
         self.unmodelled.clear();
+        self.recv_predictions.clear();
     }
 
     /// Credits the block's fees to the sudo address as of the end of the block.
@@ -846,8 +851,7 @@ impl Model {
                     *b = b.saturating_add(a.amount);
                 }
             }
-            Action::Ibc(_) => {
-                // handled by the IBC engine part (see ibc.rs); fee only here
+            Action::Ibc(relay) => {
                 self.charge(
                     "IbcRelay",
                     "penumbra.core.component.ibc.v1.IbcRelay".to_string(),
@@ -866,7 +870,26 @@ impl Model {
                         format!("IbcRelay succeeded signed by non-relayer {}", hex(signer)),
                     ));
                 }
-                self.unmodelled.insert("ibc");
+                match relay {
+                    penumbra_ibc::IbcRelay::RecvPacket(msg) => {
+                        let ok = self.ibc_recv(&msg.packet, view, pos);
+                        self.recv_predictions.push((view.id, pos, msg.packet.sequence.0, ok));
+                    }
+                    penumbra_ibc::IbcRelay::Acknowledgement(msg) => {
+                        let success = serde_json::from_slice::<serde_json::Value>(&msg.acknowledgement)
+                            .ok()
+                            .is_some_and(|v| v.get("result").is_some());
+                        if !success {
+                            self.ibc_refund(&msg.packet, view, pos, out);
+                        }
+                    }
+                    penumbra_ibc::IbcRelay::Timeout(msg) => {
+                        self.ibc_refund(&msg.packet, view, pos, out);
+                    }
+                    _ => {
+                        self.unmodelled.insert("ibc");
+                    }
+                }
             }
             Action::RecoverIbcClient(_) => {
                 self.require_sudo("RecoverIbcClient", signer, out);
@@ -898,6 +921,164 @@ impl Model {
                 );
                 self.require_sudo("MarketsChange", signer, out);
             }
+        }
+    }
+
+    fn parse_seq_addr(input: &str) -> Option<Addr> {
+        use astria_core::primitive::v1::{
+            Address,
+            Bech32,
+            Bech32m,
+        };
+        if let Ok(a) = input.parse::<Address<Bech32m>>() {
+            if a.prefix() == crate::test_utils::ASTRIA_PREFIX {
+                return Some(a.bytes());
+            }
+        }
+        if let Ok(a) = input.parse::<Address<Bech32>>() {
+            if a.prefix() == crate::test_utils::ASTRIA_COMPAT_PREFIX {
+                return Some(a.bytes());
+            }
+        }
+        None
+    }
+
+    fn parse_trace(&self, input: &str) -> Option<String> {
+        match input.parse::<Denom>().ok()? {
+            Denom::TracePrefixed(t) => Some(t.to_string()),
+            Denom::IbcPrefixed(i) => self.known_traces.get(i.as_bytes()).cloned(),
+        }
+    }
+
+    /// ICS-20 receive. All-or-nothing: returns whether the packet must be acknowledged with
+    /// success; on `false` nothing changes.
+    fn ibc_recv(&mut self, packet: &ibc_types::core::channel::Packet, view: &TxView<'_>, pos: u64) -> bool {
+        use penumbra_proto::penumbra::core::component::ibc::v1::FungibleTokenPacketData;
+        let Ok(data) = serde_json::from_slice::<FungibleTokenPacketData>(&packet.data) else {
+            return false;
+        };
+        let Ok(amount) = data.amount.parse::<u128>() else {
+            return false;
+        };
+        let Some(recipient) = Self::parse_seq_addr(&data.receiver) else {
+            return false;
+        };
+        let Some(trace) = self.parse_trace(&data.denom) else {
+            return false;
+        };
+        let prefix = format!("{}/{}/", packet.port_on_a, packet.chan_on_a);
+        let is_source = trace.starts_with(&prefix);
+        let asset_str = if is_source {
+            trace[prefix.len()..].to_string()
+        } else {
+            format!("{}/{}/{}", packet.port_on_b, packet.chan_on_b, trace)
+        };
+        let Ok(asset) = asset_str.parse::<Denom>() else {
+            return false;
+        };
+        let aid = asset_id(&asset);
+        if self.blackburn_active && !self.fee_assets.contains(&aid) {
+            return false;
+        }
+        let mut deposit = None;
+        if let Some(b) = self.bridges.get(&recipient) {
+            if b.disabled {
+                return false;
+            }
+            let Ok(memo) = serde_json::from_str::<astria_core::protocol::memos::v1::Ics20TransferDeposit>(&data.memo) else {
+                return false;
+            };
+            if memo.rollup_deposit_address.is_empty() || memo.rollup_deposit_address.len() > 256 {
+                return false;
+            }
+            if b.asset != aid {
+                return false;
+            }
+            deposit = Some(Deposit {
+                bridge_address: crate::test_utils::astria_address(&recipient),
+                rollup_id: astria_core::primitive::v1::RollupId::new(b.rollup),
+                amount,
+                asset: asset.clone(),
+                destination_chain_address: memo.rollup_deposit_address,
+                source_transaction_id: astria_core::primitive::v1::TransactionId::new(view.id),
+                source_action_index: pos,
+            });
+        }
+        let chan = packet.chan_on_b.to_string();
+        if is_source {
+            let e = self.escrow.get(&(chan.clone(), aid)).copied().unwrap_or(0);
+            if e < amount {
+                return false;
+            }
+        }
+        let cur = self.bal(&recipient, &aid);
+        let Some(new_bal) = cur.checked_add(amount) else {
+            return false;
+        };
+        // commit
+        if is_source {
+            *self.escrow.entry((chan, aid)).or_default() -= amount;
+        } else {
+            let m = self.block_minted.entry(aid).or_default();
+            *m = m.saturating_add(amount);
+            self.known_traces.insert(aid, asset_str);
+        }
+        self.balances.insert((recipient, aid), new_bal);
+        if let Some(d) = deposit {
+            self.block_deposits.push(d);
+        }
+        true
+    }
+
+    /// Refund of a packet this chain sent (error acknowledgement or timeout) in a transaction that
+    /// succeeded.
+    fn ibc_refund(&mut self, packet: &ibc_types::core::channel::Packet, view: &TxView<'_>, pos: u64, out: &mut Vec<Finding>) {
+        use penumbra_proto::penumbra::core::component::ibc::v1::FungibleTokenPacketData;
+        let parsed = (|| {
+            let data = serde_json::from_slice::<FungibleTokenPacketData>(&packet.data).ok()?;
+            let amount = data.amount.parse::<u128>().ok()?;
+            let receiver = Self::parse_seq_addr(&data.sender)?;
+            let trace = self.parse_trace(&data.denom)?;
+            Some((data, amount, receiver, trace))
+        })();
+        let Some((data, amount, receiver, trace)) = parsed else {
+            out.push(finding("C18", "refund-of-unparseable-packet", "refund-unparseable", "a refund succeeded for a packet whose data cannot be parsed".into()));
+            return;
+        };
+        let Ok(asset) = trace.parse::<Denom>() else { return };
+        let aid = asset_id(&asset);
+        if let Ok(memo) = serde_json::from_str::<astria_core::protocol::memos::v1::Ics20WithdrawalFromRollup>(&data.memo) {
+            match self.bridges.get(&receiver) {
+                Some(b) if b.asset == aid => {
+                    self.block_deposits.push(Deposit {
+                        bridge_address: crate::test_utils::astria_address(&receiver),
+                        rollup_id: astria_core::primitive::v1::RollupId::new(b.rollup),
+                        amount,
+                        asset: asset.clone(),
+                        destination_chain_address: memo.rollup_return_address,
+                        source_transaction_id: astria_core::primitive::v1::TransactionId::new(view.id),
+                        source_action_index: pos,
+                    });
+                }
+                _ => out.push(finding("C04", "refund-deposit-to-non-bridge", "refund-to-rollup-without-bridge", format!("a rollup withdrawal was refunded to {} which is not a bridge account of that asset", hex(&receiver)))),
+            }
+        }
+        let prefix = format!("{}/{}/", packet.port_on_a, packet.chan_on_a);
+        if !trace.starts_with(&prefix) {
+            let chan = packet.chan_on_a.to_string();
+            let e = self.escrow.entry((chan.clone(), aid)).or_default();
+            if *e < amount {
+                out.push(finding("C18", "refund-exceeds-escrow", "refund-exceeds-escrow", format!("refund of {amount} over {chan} succeeded with only {} escrowed", *e)));
+                *e = 0;
+            } else {
+                *e -= amount;
+            }
+        } else {
+            let m = self.block_minted.entry(aid).or_default();
+            *m = m.saturating_add(amount);
+        }
+        if let Err(e) = self.credit(&receiver, &aid, amount) {
+            out.push(finding("C01", "credit-overflow", "ibc-refund-credit-overflow", format!("refund to {}: {e}", hex(&receiver))));
         }
     }
 
